@@ -50,6 +50,59 @@ func (c *countingReader) Read(p []byte) (int, error) {
 	return k, nil
 }
 
+// servedReader is a contract-abiding io.Reader whose answers are produced by another goroutine: every Read of inner is
+// carried out by a helper goroutine while the caller waits for it, and before the helper starts the calling goroutine
+// needs more stack than it has, so that the runtime moves its stack while the request is pending (what any deeper call
+// chain inside a reader does). The buffer is used during the call only. For a library that keeps the buffer it lends
+// to Read in memory the runtime knows about, this reader is indistinguishable from inner.
+type servedReader struct {
+	inner io.Reader
+	depth int // kilobytes of stack the next Read needs on the calling goroutine (doubles up to 4 MB, then stays)
+	Moves int
+}
+
+//go:noinline
+func vxUseStack(depth int) byte {
+	var pad [1024]byte
+	pad[depth&1023] = byte(depth)
+	if depth == 0 {
+		return pad[0]
+	}
+	return vxUseStack(depth-1) + pad[(depth*7)&1023]
+}
+
+func (s *servedReader) Read(p []byte) (int, error) {
+	type ans struct {
+		n   int
+		err error
+	}
+	start := make(chan struct{})
+	done := make(chan ans, 1)
+	go func() {
+		<-start
+		n, err := s.inner.Read(p)
+		done <- ans{n, err}
+	}()
+	if s.depth == 0 {
+		s.depth = 64
+	}
+	if s.depth <= 4096 {
+		vxUseStack(s.depth)
+		s.depth *= 2
+		s.Moves++
+	}
+	close(start)
+	a := <-done
+	return a.n, a.err
+}
+
+// onFresh runs f on a new goroutine (which starts with the smallest stack) and waits for it.
+func onFresh(f func()) {
+	done := make(chan struct{})
+	go func() { defer close(done); f() }()
+	<-done
+}
+
 func stream(cands ...[]byte) *countingReader {
 	return &countingReader{data: bytes.Join(cands, nil)}
 }
